@@ -37,6 +37,7 @@ _RC = [
     "crc16", "crc32", "sum8", "sum16_odd", "sum16_even",
     "digest_large_inputs", "sum16_input_ge_128KiB", "sum16_word_sum_exceeds_2p32", "sum8_byte_sum_exceeds_2p16", "crc_input_ge_1MiB", "md5_input_ge_1MiB",
     "md5_multi_update", "md5_split_inside_block", "md5_split_on_block_edge", "md5_three_way_splits", "aes_cipher", "aes_invcipher",
+    "md5_single_update_ge_512MiB", "md5_multi_update_total_ge_512MiB", "md5_huge_misaligned_first_piece",
 ]
 _RC_FUZZ = ["fuzz_execs_checksum_large", "fuzz_sum16_word_sum_exceeds_2p32", "fuzz_execs_base64_decode", "fuzz_execs_hex_decode", "fuzz_execs_scalable_parse", "fuzz_execs_url_decode",
             "fuzz_execs_deserializer", "fuzz_execs_md5_split", "fuzz_execs_roundtrip", "fuzz_inputs_with_byte_ge_0x80"] if _FUZZ else []
@@ -54,6 +55,9 @@ PROP = dict(
         _leg("digest", 30000, 400000),
         # one case per message length n (0..130 quick, 0..260 thorough): all (n+1)(n+2)/2 splits into three updates
         _leg("md5split", 131, 261, scalable=False, exhaustive=True),
+        # zero-filled messages of 2^29-64, 2^29-1, 2^29, 2^29+1000 bytes x {one update, 1 MiB pieces, 300 MiB + rest, misaligned 96 MiB pieces};
+        # all 16 cases in both tiers (about 10 s wall with 4 jobs, 35 s CPU under ASan). One 512 MiB calloc (untouched zero pages) per shard at a time.
+        _leg("md5-huge", 16, 16, scalable=False, exhaustive=True),
     ] + _FUZZ_LEG,
     rule=("One case = one generated input pushed through every entry point of one codec family, each expected value asked from the "
           "python co-process lib/oracles/c19_ref.py (base64, binascii, zlib, hashlib, struct, urllib.parse; AES-128 written from FIPS-197 and "
